@@ -85,7 +85,7 @@ def row_values(numtype, tail, rid, valset=0):
 class Config:
     """One concrete configuration of a run: element type, byte order, trailing
     shape, how appended data are presented, which special values are used."""
-    FORMS = ['native', 'swapped', 'list', 'wider', 'forder', 'scalar', 'tuple']
+    FORMS = ['native', 'swapped', 'list', 'wider', 'forder', 'scalar', 'tuple', 'zerod']
 
     def __init__(self, numtype='int64', byteorder='little', tail=(), form='native', valset=0,
                  iterform='list', nids=4):
@@ -153,6 +153,10 @@ class Config:
             if a.ndim == 1 and len(rids) == 1:
                 return a[0].item() if a.dtype.kind != 'c' else complex(a[0])
             return a
+        if f == 'zerod':                  # a 0-d ndarray: one element, like a scalar
+            if a.ndim == 1 and len(rids) == 1:
+                return np.array(a[0])
+            return a
         raise ValueError(f)
 
     def expected_chunk_bytes(self, rids):
@@ -163,7 +167,7 @@ class Config:
         else:
             ref = np.array(c, dtype=self.dtype, ndmin=1)
         ref = np.ascontiguousarray(ref).reshape((len(rids),) + self.tail)
-        return [ref[i].tobytes() for i in range(len(rids))]
+        return [ref[i:i + 1].tobytes() for i in range(len(rids))]
 
     def iterable(self, chunks):
         if self.iterform == 'gen':
@@ -195,7 +199,7 @@ def config_space(thorough=False):
         for bo in BYTEORDERS:
             for tail in (TAILS if thorough else TAILS[:3]):
                 for form in forms:
-                    if form == 'scalar' and tail != ():
+                    if form in ('scalar', 'zerod') and tail != ():
                         continue
                     out.append((nt, bo, tail, form))
     return out
@@ -208,13 +212,16 @@ def pick_configs(n, seed, thorough=False):
     pairs = [(nt, bo) for nt in NUMTYPES for bo in BYTEORDERS]
     rnd.shuffle(pairs)
     tails = TAILS if thorough else TAILS[:4]
+    # every valid (trailing shape, input form) combination, shuffled; the i-th configuration takes the
+    # i-th type/byte-order pair and the i-th combination, with a shift per round so that pairs and
+    # combinations meet in different ways
+    combos = [(t, f) for t in tails for f in Config.FORMS if f not in ('scalar', 'zerod') or t == ()]
+    rnd.shuffle(combos)
     out = []
     i = 0
     while len(out) < n:
         nt, bo = pairs[i % len(pairs)]
-        tail = tails[(i + i // len(pairs)) % len(tails)]
-        forms = [f for f in Config.FORMS if f != 'scalar' or tail == ()]
-        form = forms[(i * 7 + i // len(pairs)) % len(forms)]
+        tail, form = combos[(i + 3 * (i // len(pairs))) % len(combos)]
         valset = (i // 3) % 5
         iterform = ['list', 'gen', 'tuple'][i % 3]
         out.append(Config(nt, bo, tail, form, valset, iterform))
